@@ -22,6 +22,9 @@ enum Ev {
     Reset(u64),
     AppClose(u64),
     Timeout,
+    Internal,
+    Undefined,
+    Unknown,
 }
 
 impl Ev {
@@ -52,6 +55,16 @@ impl RecvStream for ScriptRecv {
             Some(Ev::Timeout) => Poll::Ready(Err(StreamErrorIncoming::ConnectionErrorIncoming {
                 connection_error: ConnectionErrorIncoming::Timeout,
             })),
+            Some(Ev::Internal) => Poll::Ready(Err(StreamErrorIncoming::ConnectionErrorIncoming {
+                connection_error: ConnectionErrorIncoming::InternalError("scripted".into()),
+            })),
+            Some(Ev::Undefined) => Poll::Ready(Err(StreamErrorIncoming::ConnectionErrorIncoming {
+                connection_error: ConnectionErrorIncoming::Undefined(Arc::new(std::io::Error::new(
+                    std::io::ErrorKind::Other,
+                    "scripted",
+                ))),
+            })),
+            Some(Ev::Unknown) => Poll::Ready(Err(StreamErrorIncoming::Unknown("scripted".into()))),
         }
     }
     fn stop_sending(&mut self, _error_code: u64) {}
@@ -113,7 +126,7 @@ fn fserr_str(e: FrameStreamError) -> String {
                 ConnectionErrorIncoming::ApplicationClose { error_code } => format!("err:quic:app:{}", error_code),
                 ConnectionErrorIncoming::Timeout => "err:quic:timeout".to_string(),
                 ConnectionErrorIncoming::InternalError(_) => "err:quic:internal".to_string(),
-                _ => "err:quic:other".to_string(),
+                ConnectionErrorIncoming::Undefined(_) => "err:quic:undefined".to_string(),
             },
             StreamErrorIncoming::Unknown(_) => "err:quic:unknown".to_string(),
         },
@@ -135,8 +148,11 @@ fn run_fs(acts: &str) -> String {
             "c" => Some(Ev::Chunk(Bytes::from(unhex(rest)))),
             "F" => Some(Ev::Fin),
             "R" => Some(Ev::Reset(rest.parse().unwrap())),
+            "X" if rest == "U" => Some(Ev::Undefined),
             "X" => Some(Ev::AppClose(rest.parse().unwrap())),
             "T" => Some(Ev::Timeout),
+            "I" => Some(Ev::Internal),
+            "K" => Some(Ev::Unknown),
             _ => None,
         };
         if let Some(ev) = ev {
